@@ -21,3 +21,48 @@ package flows
 //@ interface EventCallback.call
 //@   assigns ghost.evlog, engine.sprint::events, runs.run::events, runs.run::modifiedOn, events.BaseEvent::StepUUID_
 //@   ensures ghost.evlog == old(ghost.evlog) ++ [arg0]
+
+// ---- C03: URN list operations
+//@ pred urnIn(l URNList, ident urns.URN) bool := exists k int :: 0 <= k && k < len(l) && l[k].urn.Identity() == ident
+
+//@ func (c *Contact) HasURN
+//@   pure
+//@   reads Contact::urns, elems[*ContactURN], ContactURN::urn
+//@   requires c != nil
+//@   ensures [has] result <==> urnIn(c.urns, urn.Normalize().Identity())
+//@ loop 1
+//@   invariant forall k int :: 0 <= k && k <= $i ==> c.urns[k].urn.Identity() != urn.Identity()
+
+//@ func (c *Contact) ClearURNs
+//@   requires c != nil
+//@   assigns c.urns
+//@   ensures [result] result <==> old(len(c.urns)) > 0
+//@   ensures [cleared] len(c.urns) == 0
+
+//@ func (c *Contact) AddURN
+//@   requires c != nil
+//@   assigns c.urns
+//@   ensures [result] result <==> !old(urnIn(c.urns, urn.Normalize().Identity()))
+//@   ensures [unchanged] !result ==> c.urns == old(c.urns)
+//@   ensures [appended] result ==> (len(c.urns) == old(len(c.urns)) + 1 && (forall k int :: 0 <= k && k < old(len(c.urns)) ==> c.urns[k] == old(c.urns)[k]) && c.urns[len(c.urns) - 1] != nil && fresh(c.urns[len(c.urns) - 1]) && c.urns[len(c.urns) - 1].urn == urn)
+
+//@ func (c *Contact) RemoveURN
+//@   requires c != nil && urn.Normalize() == urn
+//@   assigns c.urns
+//@   ensures [result] result <==> old(urnIn(c.urns, urn.Identity()))
+//@   ensures [unchanged] !result ==> c.urns == old(c.urns)
+//@   ensures [removed] result ==> (len(c.urns) < old(len(c.urns)) && !urnIn(c.urns, urn.Identity()))
+//@ loop 1
+//@   invariant len(newURNs) <= $i + 1
+//@   invariant (exists k int :: 0 <= k && k <= $i && old(c.urns)[k].urn.Identity() == urn.Identity()) ==> len(newURNs) <= $i
+//@   invariant forall j int :: 0 <= j && j < len(newURNs) ==> newURNs[j].urn.Identity() != urn.Identity()
+//@   invariant c.urns == old(c.urns)
+
+//@ func URNList.RawURNs
+//@   assigns nothing
+//@   ensures [len] len(result) == len(l)
+//@   ensures [elems] forall k int :: 0 <= k && k < len(l) ==> result[k] == l[k].urn
+//@   ensures [fresh] fresh(result.arr) || len(l) == 0
+//@ loop 1
+//@   invariant forall k int :: 0 <= k && k <= $i ==> raw[k] == l[k].urn
+//@   invariant len(raw) == len(l)
